@@ -239,6 +239,22 @@ func genC01(r *rand.Rand, tier string, env *Env) []Case {
 		}
 		cases = append(cases, Case{Kind: "program", Ops: []Op{p.parseOp(), p.genOp()}, Oracles: []Op{{"c01.language", p.genOp().Args}}})
 	}
+	// the same kind of thing twice in one file: two blocks of one type at different places of the expression, the same
+	// entries on both sides of a mark, a stored expression used twice — nothing of the first may show in the second
+	empty := [][]byte{{}, {}, {}, {}, {}, {}}
+	for _, prog := range []string{
+		"##!> cmdline unix\ncurl\nwget\n##!<\n##!=>\n##!> cmdline unix\nsh\nbash\n##!<\n",
+		"##!> cmdline windows\ndir\n##!<\n##!=< first\n##!> cmdline windows\ntype\n##!<\n##!=> first\n",
+		"##!> assemble\n##!> cmdline unix\nls\n##!<\n##!<\n##!=>\n##!> assemble\n##!> cmdline unix\ncat\n##!<\n##!<\n",
+		"##!> cmdline unix\nls\n##!<\n##!=>\n##!> cmdline windows\ndir\n##!<\n##!=>\n##!> cmdline unix\nps\n##!<\n",
+		"a\nb\n##!=>\na\nc\n",
+		"ab\ncd\n##!=< t\n##!=> t\n-\n##!=>\nab\ncd\n",
+		"##!> assemble\na\nb\n##!<\n##!=>\nq\n##!=>\n##!> assemble\na\nb\n##!<\n",
+		"x\ny\n##!=< t\n##!=> t\n##!=> t\n",
+	} {
+		args := append(append([][]byte{}, empty...), []byte(prog))
+		cases = append(cases, Case{Kind: "same-thing-twice", Ops: []Op{{"parse.run", args[6:]}, {"gen.run", args}}, Oracles: []Op{{"c01.language", args}}})
+	}
 	return cases
 }
 
